@@ -321,9 +321,13 @@ def run(rep):
         if o["rc"] != 0 or o["file"] != o["ref"]:
             rep.violation(f"-o {c['ext']} over an existing file ({c['preexisting']}): the file does not hold exactly the new output",
                           {"case": {"rewrite": c}, "observed": {k: (v[:300] if isinstance(v, str) else v) for k, v in o.items()}})
+    # the JSON codec is INSIDE the model (Bkl.Json, theorems C05_json_*): writer and reader compared on text
+    import jsoncheck
+    jsoncheck.run(rep, rng, 400 if rep.tier == "quick" else 12000, 600 if rep.tier == "quick" else 20000)
     if rep.broken and not rep.violations:
         rep.violation("proof obligation no longer checks: " + "; ".join(b["obligation"] for b in rep.broken), {"broken": rep.broken}, no_input=True)
-    rep.assumptions.append("the per-document codecs (encoding/json, yaml.v3, go-toml/v2) are parameters of the theorems; their round-trip behaviour is what this run measures")
+    rep.assumptions.append("the YAML and TOML per-document codecs (yaml.v3, go-toml/v2) are parameters of the theorems; their round-trip behaviour is what this run "
+                           "measures.  The JSON codec is modelled (Bkl.Json) and compared byte for byte; strconv's float parsing/printing stays a parameter (tables jf/fol)")
 
 
 def replay(rep, payload):
@@ -333,6 +337,9 @@ def replay(rep, payload):
         o = run_rewrite(c["rewrite"])
         print(o)
         return 1 if (o["rc"] != 0 or o["file"] != o["ref"]) else 0
+    if "jsonenc" in c or "jsondec" in c:
+        import jsoncheck
+        return 1 if (jsoncheck.evaluate_enc(rep, [c["jsonenc"]]) if "jsonenc" in c else jsoncheck.evaluate_dec(rep, [c["jsondec"]])) else 0
     if "docs" in c:
         return 1 if evaluate(rep, [c], known_sigs) else 0
     o = run_selection(c)
